@@ -196,6 +196,9 @@ class same_class:
         if g.name in self.stop or self.root is None:
             return False
         r = self.root
+        if g.cls is not None and not g.is_async and any("dataclass" in ast.unparse(d) for d in getattr(g.cls.node, "decorator_list", ())) \
+                and g.mod.startswith("bellows"):
+            return True  # a method of a small value class of the repository (a frozen record with a `with_value` / `replace`-style helper)
         c0 = self.caller
         if g.cls is not None and c0 is not None and getattr(c0, "mod", None) == g.mod and not g.is_async \
                 and any("staticmethod" in d for d in getattr(g, "decorators", ())):
